@@ -189,6 +189,52 @@ pub fn stress_inputs(tier: Tier) -> Vec<(String, String)> {
         s.push('}');
         s
     }));
+    // layered grammars: cost must stay polynomial in the depth (each costs milliseconds on the current tree)
+    {
+        let depth = 60;
+        let mut s = String::from("start A0 terminal Token { $X: () $Y: () $Z: () }\n");
+        for i in 0..depth {
+            s.push_str(&format!("enum A{i} {{ P(A{} $X) Q(A{} $Y) }}\n", i + 1, i + 1));
+        }
+        s.push_str(&format!("enum A{depth} {{ P($Z) }}\n"));
+        v.push((format!("chain of {depth} nonterminals whose two rules start with the same next nonterminal"), s));
+        let depth = 300;
+        let mut s = String::from("start A0 terminal Token { $Z: () }\n");
+        for i in 0..depth {
+            s.push_str(&format!("struct A{i}(A{})\n", i + 1));
+        }
+        s.push_str(&format!("struct A{depth}($Z)\n"));
+        v.push((format!("unit chain of {depth} nonterminals"), s));
+        let depth = 100;
+        let mut s = String::from("start A0 terminal Token { $X: () $Y: () $Z: () }\n");
+        for i in 0..depth {
+            s.push_str(&format!("struct A{i}(O{i} $Y A{})\nenum O{i} {{ N S($X) }}\n", i + 1));
+        }
+        s.push_str(&format!("struct A{depth}($Z)\n"));
+        v.push((format!("chain of {depth} nonterminals each behind its own optional"), s));
+        let depth = 40;
+        let mut s = String::from("start E0 terminal Token { $Num: () $L: () $R: () ");
+        for i in 0..depth {
+            s.push_str(&format!("$Op{i}: () "));
+        }
+        s.push_str("}\n");
+        for i in 0..depth {
+            s.push_str(&format!("enum E{i} {{ Bin(E{i} $Op{i} E{}) Up(E{}) }}\n", i + 1, i + 1));
+        }
+        s.push_str(&format!("enum E{depth} {{ Num($Num) Paren($L E0 $R) }}\n"));
+        v.push((format!("expression grammar with {depth} precedence levels"), s));
+        let n = 120;
+        let mut s = String::from("start S terminal Token { $A: () $B: () }\nenum S {\n");
+        for i in 0..n {
+            s.push_str(&format!("  V{i}("));
+            for b in 0..7 {
+                s.push_str(if i >> b & 1 == 1 { "$A " } else { "$B " });
+            }
+            s.push_str(")\n");
+        }
+        s.push_str("}\n");
+        v.push((format!("{n} rules with long common prefixes over two terminals"), s));
+    }
     // unusual well-formed grammars
     for (name, g) in [
         ("variant-less start enum", "start E enum E { } terminal T { }"),
